@@ -8,7 +8,8 @@ cp -n /repo/go.sum go.sum 2>/dev/null || true
 fail=0
 ids=$(python3 -c "
 import json,os
-cs=[json.load(open('../checks.d/'+f)) for f in sorted(os.listdir('../checks.d')) if f.endswith('.json')]
+claimed=json.load(open('../checks.json')).get('claimed',[])
+cs=[json.load(open('../checks.d/'+f)) for f in sorted(os.listdir('../checks.d')) if f.endswith('.json') and f[:-5] in claimed]
 print(' '.join((x['id'].lower()+(':race' if x.get('race') else '')) for x in cs))")
 build() {
   id=${1%%:*}; race=""; out="bin/$id.test"
